@@ -367,9 +367,11 @@ extern "C" int LLVMFuzzerTestOneInput(const uint8_t *data, size_t size)
     const char *file = files[fdp.ConsumeIntegralInRange<int>(0, 4)];
     const char *cat = cats[fdp.ConsumeIntegralInRange<int>(0, 3)];
     QString pattern = QString::fromUtf8(p.data(), int(p.size()));
-    if (hasLongDigitRun(pattern)) {
-        g_counters[1]++;
-        return 0;
+    {   // widths of four digits and more only make the outputs (and the comparison) long; large widths are C14's subject
+        int run = 0;
+        bool wide = false;
+        for (QChar ch : pattern) { run = (ch.unicode() >= '0' && ch.unicode() <= '9') ? run + 1 : 0; if (run >= 4) wide = true; }
+        if (wide) { g_counters[1]++; return 0; }
     }
     QString msg = QString::fromUtf8(m.data(), int(m.size()));
     QMessageLogContext ctx(file, 42, "void ns::f(int)", cat);
